@@ -28,6 +28,15 @@
 (*              returned; the callback returned.  Notify events in between *)
 (*              are notifications delivered after the callback selected    *)
 (*              its victim and before it applied FAILED                    *)
+(*   ApiCall name / ServiceInfo uid, info / PilotCancel pilot: application *)
+(*              calls and the service_up handler: no task changes state    *)
+(*   SubmitBegin uids, pilot / SubmitEnd: submit_tasks for tasks early     *)
+(*              bound to pilot; events in between are those of another     *)
+(*              thread that ran after some Task objects were created and   *)
+(*              before any was registered                                  *)
+(* Every event also carries tables (the module level state tables are what *)
+(* they were), edges (lock acquisition orders <<held, taken>> seen for the *)
+(* first time) and deadlock (two logical threads wait for each other).     *)
 (*   NotifyBegin batch / NotifyPartial / NotifyEnd batch:                  *)
 (*              _update_tasks interrupted by another thread: the call      *)
 (*              started; where it stands when the other thread runs (the   *)
@@ -45,9 +54,13 @@ Traces == Batch.traces
 VARIABLES tid, l, tstate, cbLog, bound, pstate, pcbLog, errs, fin,
           added,     \* pilots handed to the task manager
           sel,       \* callback in progress: tasks bound to the pilot, not final at its start
-          nb0        \* _update_tasks in progress: per task state and log length at its start
+          nb0,       \* _update_tasks in progress: per task state and log length at its start
+          ledges,    \* lock acquisition orders seen so far
+          insub,     \* submit_tasks in progress: its tasks
+          owed       \* ... those whose pilot ended meanwhile: FAILED when submit_tasks is over
 
-vars == <<tid, l, tstate, cbLog, bound, pstate, pcbLog, errs, fin, added, sel, nb0>>
+vars == <<tid, l, tstate, cbLog, bound, pstate, pcbLog, errs, fin, added, sel, nb0,
+          ledges, insub, owed>>
 
 T    == Traces[tid]
 Ev   == T.events
@@ -72,6 +85,24 @@ Init ==
   /\ errs = {} /\ fin = FALSE
   /\ added = SeqToSet(T.init_added) /\ sel = {}
   /\ nb0 = [t \in Uids |-> [st |-> 0, n |-> 0]]
+  /\ ledges = {} /\ insub = {} /\ owed = {}
+
+(* ---- locks: one acquisition order (C13: the pilot's end must reach its tasks *)
+(* while application callbacks call into the managers) ------------------------ *)
+RECURSIVE Closure(_)
+Closure(R) ==
+  LET R2 == R \cup {<<q[1][1], q[2][2]>> : q \in {x \in R \X R : x[1][2] = x[2][1]}} IN
+  IF R2 = R THEN R ELSE Closure(R2)
+Cyclic(R) == \E p \in Closure(R) : p[1] = p[2]
+
+NewEdges(e) == {<<e.edges[i][1], e.edges[i][2]>> : i \in 1 .. Len(e.edges)}
+
+\* clauses every event is checked for
+Always(e) ==
+       E(e.tables, "C06.TablesUntouched")
+  \cup E(~Cyclic(ledges \cup NewEdges(e)), "C13.LockOrder")
+  \cup E(~e.deadlock, "C13.LockOrder")
+  \cup (IF e.deadlock THEN {"N.Deadlock"} ELSE {})
 
 (* ---- what the application saw at callback time -------------------------- *)
 \* Task.state / Pilot.state read inside the callback is not behind the
@@ -125,7 +156,9 @@ DeathErrs(e, calls, refired) ==
       perTask(t) ==
         LET o   == e.tpost[t]
             own == ref.st[t] # tstate[t] IN
-        (IF own THEN
+        \* a task in the middle of its submission is judged when that is over
+        (IF t \in insub THEN {}
+         ELSE IF own THEN
            IF bound[t] \in refired
            THEN E(o.st \in {tstate[t], FailedS(NT)}, "C13.OwnFail")
            ELSE E(o.st = FailedS(NT), "C13.OwnFail")
@@ -140,7 +173,7 @@ DeathErrs(e, calls, refired) ==
         \cup E(IsFinal(NT, tstate[t]) => o.st = tstate[t], "C06.FinalSticky")
         \cup LogErrs(t, o)
       dev == KillSeq(TRUE, TRUE, tstate, NoDet, bound, calls)
-      same(r) == \A t \in Uids : e.tpost[t].st = r.st[t]
+      same(r) == \A t \in Uids \ insub : e.tpost[t].st = r.st[t]
   IN UNION {perTask(t) : t \in Uids}
      \cup (IF same(ref) THEN {} ELSE IF same(dev) THEN {"N.D9"} ELSE {"N.UnmodelledPilotCb"})
 
@@ -202,8 +235,9 @@ NotifyEndErrs(e) ==
         \cup E(IsFinal(NT, tstate[t]) => o.st = tstate[t], "C06.FinalSticky")
         \cup (IF killed THEN {} ELSE E(Sync(nb0[t].st, o.st, d), "C06.GapsFilled"))
       stated == UNION {perTask(t) : t \in Uids}
-      applied == \A t \in Uids : /\ e.tpost[t].st = ref.st[t]
-                                 /\ e.tpost[t].tcbs = e.tpost[t].cbs
+      \* (the two callback levels are not compared here: an interruption between
+      \* them splits their logs over several events)
+      applied == \A t \in Uids : e.tpost[t].st = ref.st[t]
   IN stated
      \cup (IF stated = {} /\ ~applied THEN {"C06.NotApplied"} ELSE {})
      \cup (IF e.raised THEN {"N.NotifyRaised"} ELSE {})
@@ -244,58 +278,85 @@ PNotifyErrs(e) ==
      \cup (IF e.raised THEN {"N.PNotifyRaised"} ELSE {})
      \cup (IF e.raised /\ ~code.raised THEN {"N.UnexplainedRaise"} ELSE {})
 
+\* submit_tasks is over: the tasks exist, and those whose pilot ended while they
+\* were created are FAILED (whichever of the two threads went first)
+SubmitEndErrs(e) ==
+  UNION {E(e.tpost[t].st = FailedS(NT), "C13.OwnFail")
+         \cup E(e.tpost[t].det = bound[t] /\ e.tpost[t].exc, "C13.OwnFailDetail") : t \in owed}
+  \cup Untouched(e, insub)
+  \cup (IF \A t \in insub : e.tpost[t].ex THEN {} ELSE {"N.SubmitIncomplete"})
+  \cup (IF e.raised THEN {"N.SubmitRaised"} ELSE {})
+
+DiedIn(e) ==
+  IF e.ev = "PilotFinal" THEN {e.pilot}
+  ELSE IF e.ev = "PNotify"
+       THEN SeqToSet(e.calls) \cup {p \in Pids : ~IsFinal(NP, pstate[p]) /\ IsFinal(NP, e.ppost[p].st)}
+  ELSE {}
+
 (* ---- one monitor step per event ----------------------------------------- *)
 Step ==
   /\ ~fin /\ l <= Len(Ev)
   /\ LET e == Ev[l] IN
      /\ l' = l + 1
      /\ fin' = FALSE
+     /\ ledges' = ledges \cup NewEdges(e)
+     /\ insub' = IF e.ev = "SubmitBegin" THEN SeqToSet(e.uids) \cap Uids
+                 ELSE IF e.ev = "SubmitEnd" THEN {} ELSE insub
+     /\ owed'  = IF e.ev = "SubmitEnd" THEN {}
+                 ELSE owed \cup {t \in insub : bound[t] \in DiedIn(e)}
      /\ tstate' = [t \in Uids |-> e.tpost[t].st]
      /\ cbLog'  = [t \in Uids |-> cbLog[t] \o e.tpost[t].cbs]
      /\ pstate' = [p \in Pids |-> e.ppost[p].st]
      /\ pcbLog' = [p \in Pids |-> pcbLog[p] \o e.ppost[p].cbs]
      /\ CASE e.ev = "Notify" ->
-               /\ errs' = errs \cup NotifyErrs(e, e.batch)
+               /\ errs' = errs \cup Always(e) \cup NotifyErrs(e, e.batch)
                /\ UNCHANGED <<bound, added, sel, nb0>>
           [] e.ev = "Bind" ->
                LET t  == e.uid
                    ok == t \in Uids /\ ~IsFinal(NT, tstate[t]) /\ tstate[t] < e.state IN
-               /\ errs' = errs \cup NotifyErrs(e, <<<<e.uid, e.state>>>>)
+               /\ errs' = errs \cup Always(e) \cup NotifyErrs(e, <<<<e.uid, e.state>>>>)
                             \cup (IF ok /\ e.tpost[t].pilot # e.pilot THEN {"N.BindingNotVisible"} ELSE {})
                /\ bound' = IF ok THEN [bound EXCEPT ![t] = e.pilot] ELSE bound
                /\ UNCHANGED <<added, sel, nb0>>
           [] e.ev = "PilotFinal" ->
-               /\ errs' = errs \cup DeathErrs(e, <<e.pilot>>, {})
+               /\ errs' = errs \cup Always(e) \cup DeathErrs(e, <<e.pilot>>, {})
                /\ UNCHANGED <<bound, added, sel, nb0>>
           [] e.ev = "AddPilots" ->
-               /\ errs' = errs \cup Untouched(e, {})
+               /\ errs' = errs \cup Always(e) \cup Untouched(e, {})
                             \cup (IF e.raised THEN {"N.AddRaised"} ELSE {})
                /\ added' = added \cup (SeqToSet(e.pilots) \cap Pids)
                /\ UNCHANGED <<bound, sel, nb0>>
           [] e.ev = "TaskUpdate" ->
-               /\ errs' = errs \cup UpdateErrs(e)
+               /\ errs' = errs \cup Always(e) \cup UpdateErrs(e)
                /\ UNCHANGED <<bound, added, sel, nb0>>
           [] e.ev = "DeathBegin" ->
-               /\ errs' = errs \cup Untouched(e, {})
+               /\ errs' = errs \cup Always(e) \cup Untouched(e, {})
                /\ sel' = {t \in Uids : bound[t] = e.pilot /\ ~IsFinal(NT, tstate[t])}
                /\ UNCHANGED <<bound, added, nb0>>
           [] e.ev = "DeathApply" ->
-               /\ errs' = errs \cup ApplyErrs(e, e.pilot, e.uid)
+               /\ errs' = errs \cup Always(e) \cup ApplyErrs(e, e.pilot, e.uid)
+               /\ UNCHANGED <<bound, added, sel, nb0>>
+          [] e.ev \in {"ApiCall", "ServiceInfo", "PilotCancel", "SubmitBegin"} ->
+               /\ errs' = errs \cup Always(e) \cup Untouched(e, {})
+                            \cup (IF e.raised THEN {"N.CallRaised"} ELSE {})
+               /\ UNCHANGED <<bound, added, sel, nb0>>
+          [] e.ev = "SubmitEnd" ->
+               /\ errs' = errs \cup Always(e) \cup SubmitEndErrs(e)
                /\ UNCHANGED <<bound, added, sel, nb0>>
           [] e.ev = "NotifyBegin" ->
-               /\ errs' = errs \cup Untouched(e, {})
+               /\ errs' = errs \cup Always(e) \cup Untouched(e, {})
                /\ nb0' = [t \in Uids |-> [st |-> tstate[t], n |-> Len(cbLog[t])]]
                /\ UNCHANGED <<bound, added, sel>>
           [] e.ev = "NotifyPartial" ->
-               /\ errs' = errs \cup UNION {LogErrs(t, e.tpost[t])
+               /\ errs' = errs \cup Always(e) \cup UNION {LogErrs(t, e.tpost[t])
                                            \cup E(IsFinal(NT, tstate[t]) => e.tpost[t].st = tstate[t],
                                                   "C06.FinalSticky") : t \in Uids}
                /\ UNCHANGED <<bound, added, sel, nb0>>
           [] e.ev = "NotifyEnd" ->
-               /\ errs' = errs \cup NotifyEndErrs(e)
+               /\ errs' = errs \cup Always(e) \cup NotifyEndErrs(e)
                /\ UNCHANGED <<bound, added, sel, nb0>>
           [] e.ev = "DeathEnd" ->
-               /\ errs' = errs \cup EndErrs(e, e.pilot)
+               /\ errs' = errs \cup Always(e) \cup EndErrs(e, e.pilot)
                /\ sel' = {}
                /\ UNCHANGED <<bound, added, nb0>>
           [] e.ev = "PNotify" ->
@@ -306,7 +367,7 @@ Step ==
                LET died == {p \in Pids : ~IsFinal(NP, pstate[p]) /\ IsFinal(NP, e.ppost[p].st)}
                    all  == e.calls \o SetToSeq(died \ SeqToSet(e.calls))
                    ends == SelectSeq(all, LAMBDA q : q \in added) IN
-               /\ errs' = errs \cup PNotifyErrs(e)
+               /\ errs' = errs \cup Always(e) \cup PNotifyErrs(e)
                             \cup DeathErrs(e, ends, {p \in Pids : IsFinal(NP, pstate[p])})
                             \cup (IF died \subseteq SeqToSet(e.calls) THEN {}
                                   ELSE {"N.FinalWithoutCallback"})
@@ -315,7 +376,7 @@ Step ==
                \* TaskManager.remove_pilots: the tasks bound to the pilot stay
                \* bound (nothing cancels or unbinds them), so the pilot's end is
                \* still judged by C13; a final task stays what it is
-               /\ errs' = errs \cup UNION {LogErrs(t, e.tpost[t]) : t \in Uids}
+               /\ errs' = errs \cup Always(e) \cup UNION {LogErrs(t, e.tpost[t]) : t \in Uids}
                             \cup UNION {E(IsFinal(NT, tstate[t]) => e.tpost[t].st = tstate[t],
                                           "C06.FinalSticky") : t \in Uids}
                             \cup (IF \A t \in Uids : e.tpost[t].st = tstate[t] THEN {}
@@ -323,7 +384,7 @@ Step ==
                             \cup (IF e.raised THEN {"N.RemoveRaised"} ELSE {})
                /\ UNCHANGED <<bound, added, sel, nb0>>
           [] OTHER ->
-               /\ errs' = errs \cup {"X.UnknownEvent"}
+               /\ errs' = errs \cup Always(e) \cup {"X.UnknownEvent"}
                /\ UNCHANGED <<bound, added, sel, nb0>>
   /\ UNCHANGED tid
 
@@ -331,7 +392,8 @@ Finish ==
   /\ ~fin /\ l > Len(Ev)
   /\ fin' = TRUE
   /\ PrintT(<<"RESULT", T.tid, errs>>)
-  /\ UNCHANGED <<tid, l, tstate, cbLog, bound, pstate, pcbLog, errs, added, sel, nb0>>
+  /\ UNCHANGED <<tid, l, tstate, cbLog, bound, pstate, pcbLog, errs, added, sel, nb0,
+                 ledges, insub, owed>>
 
 Next == Step \/ Finish
 Spec == Init /\ [][Next]_vars
